@@ -7,7 +7,8 @@ C15p — panic-freedom of the logarithms: ln, log, log10 (Newton iterations on `
 is panic-free on every argument satisfying the C01 invariant (valid, or non-finite high word).  That the iterates
 satisfy the invariant follows from C01 for `+ - ×`, and for `exp` itself from C01 plus ONE closed finite fact,
 `PF.ExpHalfRecipInv` (the reciprocals `1.0 / exp_half(m)`, `1 ≤ m ≤ 1439`, satisfy the invariant — `f64 / TwoFloat`
-is the operator whose invariant is open in C01).  Results depending on it are named `_partial`.
+is the operator whose invariant is open in C01 in general).  Results relative to it are named `_partial`; the fact
+itself is proved in `C14p.expHalfRecipInv`, so `ln_pf`, `log_pf`, `log10_pf` below are unconditional.
 -/
 import TFV.Lemmas.PanicFree
 import TFV.Properties.C14p
@@ -63,6 +64,35 @@ theorem ln_1p_pf_partial (x : TwoFloat) (hw : x.WF)
 theorem Float_log2_pf (x : TwoFloat) : num_integration.impl_Float_for_TwoFloat.log2.pf x = true := PF.log2_pf x
 theorem Float_ln_pf_partial (HR : PF.ExpHalfRecipInv) (x : TwoFloat) (hi : x.Inv) (hw : x.WF) :
     num_integration.impl_Float_for_TwoFloat.ln.pf x = true := PF.ln_pf HR x ⟨hi, hw⟩
+
+
+/-! ### unconditional statements (`PF.ExpHalfRecipInv` is proved in `C14p.expHalfRecipInv`) -/
+
+/-- **`ln` never panics** on an argument satisfying the invariant — in particular on every valid argument -/
+theorem ln_pf (x : TwoFloat) (hi : x.Inv) (hw : x.WF) : TwoFloat.ln.pf x = true :=
+  ln_pf_partial C14p.expHalfRecipInv x hi hw
+
+theorem ln_pf_valid (x : TwoFloat) (hv : x.Valid) (hw : x.WF) : TwoFloat.ln.pf x = true :=
+  ln_pf x (Or.inl hv) hw
+
+/-- **`ln` preserves the invariant** -/
+theorem ln_inv (x : TwoFloat) (hi : x.Inv) (hw : x.WF) : (TwoFloat.ln x).Inv ∧ (TwoFloat.ln x).WF :=
+  ln_inv_partial C14p.expHalfRecipInv x hi hw
+
+/-- **`log` never panics** -/
+theorem log_pf (x b : TwoFloat) (hx : x.Inv) (hwx : x.WF) (hb : b.Inv) (hwb : b.WF) :
+    TwoFloat.log.pf x b = true := log_pf_partial C14p.expHalfRecipInv x b hx hwx hb hwb
+
+/-- **`log10` never panics** -/
+theorem log10_pf (x : TwoFloat) (hi : x.Inv) (hw : x.WF) : TwoFloat.log10.pf x = true :=
+  log10_pf_partial C14p.expHalfRecipInv x hi hw
+
+theorem Float_ln_pf (x : TwoFloat) (hi : x.Inv) (hw : x.WF) :
+    num_integration.impl_Float_for_TwoFloat.ln.pf x = true := ln_pf x hi hw
+theorem Float_log_pf (x b : TwoFloat) (hx : x.Inv) (hwx : x.WF) (hb : b.Inv) (hwb : b.WF) :
+    num_integration.impl_Float_for_TwoFloat.log.pf x b = true := log_pf x b hx hwx hb hwb
+theorem Float_log10_pf (x : TwoFloat) (hi : x.Inv) (hw : x.WF) :
+    num_integration.impl_Float_for_TwoFloat.log10.pf x = true := log10_pf x hi hw
 
 /-! ### closed instances -/
 
